@@ -149,6 +149,9 @@ def r184(db, ctx):
                       'writable requests and null views are refused before any field of the view is written')
     gs = pyfns(db, '__getbuffer__')
     ctx.floor('R18.4', len(gs), 5, '__getbuffer__ methods')
+    ctx.rule('R18.7', '2-D exports: len = self.shape[0] * self.shape[1] * itemsize (PEP 3118: len is product(shape) * itemsize; never -1, never recomputed '
+                      'from a row count that can differ from the cached shape)')
+    n7 = [0]
     for f in gs:
         cls = f.path.split('::')[1]
         R = X.Rec(f)
@@ -239,6 +242,35 @@ def r184(db, ctx):
                 v = fields.get(k)
                 if not v or not (v[1][0] == 'call' and v[1][1].endswith('as_mut_ptr') and X.canon(v[1]).find('.' + k) >= 0):
                     probs.append(f'2-D export: {k} does not point at the object\'s own {k} array')
+            # R18.7: len = shape[0] * shape[1] * itemsize, with the extents read from the exported shape array itself
+            p7 = []
+            if not ln:
+                p7.append('len is never set')
+            else:
+                def factors(e):
+                    if e[0] == 'bin' and e[1] in ('Mul', 'MulUnchecked'):
+                        return factors(e[2]) + factors(e[3])
+                    return [e]
+                fs = factors(ln[1])
+                ext = [x for x in fs if m(('idx', ('fld', ('p', 1), 'shape'), ('k', '$d')), x) is not None]
+                dims = sorted(m(('idx', ('fld', ('p', 1), 'shape'), ('k', '$d')), x)['$d'] for x in ext)
+                rest = [x for x in fs if x not in ext]
+                szs = []
+                for x in X.walk(ln[0]['value']):
+                    if x[0] == 'call' and x[1].endswith('mem::size_of') and len(x) > 3:
+                        szs.append(x[3][x[3].index('size_of::<') + 10:-1])
+                sz_ok = (len(rest) == 1 and rest[0][0] == 'call' and rest[0][1].endswith('mem::size_of') and len(szs) == 1 and fmt in FMT
+                         and size_tab.get(szs[0]) == FMT[fmt][0]) or (not rest and fmt in FMT and FMT[fmt][0] == 1)
+                if dims != [0, 1]:
+                    p7.append(f'len is {X.show(ln[1], 100)}: not the product of the two exported extents self.shape[0] * self.shape[1] '
+                              '(consumers such as bytes()/tobytes() allocate `len` bytes and fill product(shape)*itemsize of them)')
+                elif not sz_ok:
+                    p7.append(f'len is {X.show(ln[1], 100)}: the item-size factor is missing or is not size_of of the exported element type')
+            if p7:
+                ctx.fail('R18.7', f, f'{cls} buffer length', '; '.join(p7), span=ln[0]['span'] if ln else None)
+            else:
+                n7[0] += 1
+                ctx.ok('R18.7', f, f'{cls}: len = shape[0] * shape[1] * size_of::<{szs[0] if szs else "u8"}>()')
         else:
             probs.append(f'ndim {ndv}')
         # refusals dominate every store to the view
@@ -255,6 +287,7 @@ def r184(db, ctx):
         else:
             ctx.ok('R18.4', f, f'{cls}: format {fmt!r}, itemsize size_of::<{its}>, pointer {ety}, ndim {ndv}, readonly',
                    ['refusals dominate all view writes'])
+    ctx.floor('R18.7', n7[0], 3, '2-D buffer exports with len = product(shape) * itemsize')
 
 
 def r185(db, ctx):
@@ -281,8 +314,93 @@ def r185(db, ctx):
             ctx.fail('R18.5', f, 'forwarding helper', f'{nm}() does not reach a callee named {nm}: {sorted(callee)}')
 
 
+FRESH_CORE = ('lightmotif::seq::EncodedSequence::to_striped', 'lightmotif::pli::Stripe::stripe', 'lightmotif::pli::Pipeline::stripe',
+              'lightmotif::seq::StripedSequence::sample', 'lightmotif::seq::StripedSequence::new')
+
+
+def _is_fresh_producer(db, name, depth=0):
+    """A callee whose result is a newly striped sequence (no look-ahead rows yet): core striping entry points, or a workspace function
+    all of whose returned values come from such a call (checked by provenance of its return place)."""
+    from lm import prov
+    if any(name == c or name.startswith(c + '::<') or name.startswith(c) for c in FRESH_CORE):
+        return True
+    if depth > 3 or name not in db.fns:
+        return False
+    g = db.fns[name]
+    if g.crate != 'lightmotif_py':
+        return False
+    R = X.Rec(g)
+    tops = prov.top_producers(g, R, ('v', 0))
+    return bool(tops) and all(x[0] == 'call' and _is_fresh_producer(db, x[1], depth + 1) for x in tops)
+
+
+def r186(db, ctx):
+    from lm import prov
+    ctx.rule('R18.6', 'StripedSequence caches its exported shape at construction while scoring later appends look-ahead rows to the wrapped matrix: '
+                      'either the cached row extent is rows() - wrap(), or every construction receives freshly striped data (no look-ahead rows yet)')
+    cls = 'lightmotif_py::StripedSequence'
+    ctors = []
+    for f in db.fns.values():
+        if f.crate != 'lightmotif_py' or f.promoted_of or f.raw.get('derived'):
+            continue
+        for blk in f.blocks:
+            for st in blk['stmts']:
+                if st['k'] == 'assign' and st['rv']['k'] == 'agg' and st['rv'].get('ak') == 'adt' and st['rv'].get('adt') == cls and 'shape' in st['rv'].get('fields', []):
+                    R = X.Rec(f)
+                    ops = dict(zip(st['rv']['fields'], [norm(R.operand(o)) for o in st['rv']['ops']]))
+                    ctors.append((f, ops, st))
+    ctx.floor('R18.6', len(ctors), 1, 'aggregate constructions of lightmotif_py::StripedSequence')
+    # is the wrapped matrix ever grown after construction?  (configure / configure_wrap reachable on .data)
+    grows = [f.path for f in db.fns.values() if f.crate == 'lightmotif_py' and any((f.callee_short(t) or '').startswith('lightmotif::seq::StripedSequence') and
+             (f.callee_short(t) or '').endswith(('::configure', '::configure_wrap')) for _, t in f.calls())]
+    if not grows:
+        ctx.ok('R18.6', cls, 'the wrapped striped matrix is never reconfigured from Python: the cached shape cannot go stale')
+        return
+    for f, ops, st in ctors:
+        sh = ops['shape']
+        rows_ext = [x for x in (sh[2] if sh[0] == 'agg' else ()) if 'rows' in X.canon(x)]
+        if len(rows_ext) != 1:
+            ctx.fail('R18.6', f, 'cached shape', 'reason=unrecognised-shape: no single rows extent in the shape array')
+            continue
+        l = X.lin(rows_ext[0])
+        atoms = {k: v for k, v in l.items() if k != ''}
+        minus_wrap = any('wrap' in k and v == -1 for k, v in atoms.items()) and any('rows' in k and v == 1 for k, v in atoms.items()) and len(atoms) == 2
+        if minus_wrap:
+            ctx.ok('R18.6', f, 'cached row extent is rows() - wrap(): independent of look-ahead rows')
+            continue
+        if f.kind != 'AssocFn' or 'From' not in f.path:
+            ctx.fail('R18.6', f, 'constructor', 'reason=unrecognised-shape: StripedSequence is built outside its From impl with a raw rows() extent')
+            continue
+        # every call of this From impl (directly or through Into::into) must pass freshly striped data
+        sites = []
+        for g in db.fns.values():
+            if g.crate != 'lightmotif_py' or g.promoted_of or g.raw.get('derived'):
+                continue
+            for bi, t in g.calls():
+                cf = t.get('callee_full') or ''
+                ga = t.get('gargs') or []
+                c = t.get('callee') or ''
+                if (c.endswith('convert::From::from') and ga[:1] == [cls]) or (c.endswith('convert::Into::into') and ga[1:2] == [cls]):
+                    sites.append((g, t))
+        ctx.floor('R18.6', len(sites), 1, 'call sites constructing a Python StripedSequence')
+        for g, t in sites:
+            R = X.Rec(g)
+            arg = R.operand(t['args'][0])
+            tops = prov.top_producers(g, R, arg)
+            prods = sorted(x[1] for x in tops if x[0] == 'call')
+            stale = [x for x in tops if x[0] != 'call']
+            if prods and all(_is_fresh_producer(db, c) for c in prods) and not stale:
+                ctx.ok('R18.6', g, f'StripedSequence::from({X.show(norm(arg), 80)}): freshly striped data', prods)
+            else:
+                what = X.show(stale[0][1], 80) if stale else X.show(norm(arg), 100)
+                ctx.fail('R18.6', g, 'StripedSequence::from(existing data)',
+                         f'the shape cached by From is computed from rows() of {what}, which may already carry look-ahead rows appended by configure() '
+                         f'(reachable from {grows[0]}): a memoryview of the new object would expose padding rows and mis-map [column][row]', span=t.get('span'))
+
+
 def run(db, ctx):
     r181_182(db, ctx)
     r183(db, ctx)
     r184(db, ctx)
     r185(db, ctx)
+    r186(db, ctx)
